@@ -288,7 +288,7 @@ def run_samples_case(c):
     # --- csv + info files, summary file
     paths = af.DirectoryPaths(name=tag, unique_tag=tag)
     paths.model = model
-    paths.search = af.m.MockSearch()
+    paths.search = af.m.MockSearch(name=tag, unique_tag=tag)
     out["csv_save"] = attempt(lambda: paths.save_samples(samples) or True)
     if "ok" in out["csv_save"]:
         out["raw"] = attempt(lambda: raw_table(paths._samples_file))
